@@ -248,9 +248,11 @@ class Exec:
     """Symbolic path enumerator for one root body (with inlining of directly called closures
     and of the functions named in `inline`)."""
 
-    def __init__(self, prog, inline=(), models=True, max_paths=MAX_PATHS, pure=None, unroll=1):
+    def __init__(self, prog, inline=(), models=True, max_paths=MAX_PATHS, pure=None, unroll=1, all_cfg_arms=False):
         self.prog = prog
         self.unroll = unroll
+        # also read the arm of an `if cfg!(..)` that is dead in this build (another architecture's code)
+        self.all_cfg_arms = all_cfg_arms
         self.inline = set(inline) | set(prog.auto_inline())
         self.models = models
         self.max_paths = max_paths
@@ -419,6 +421,8 @@ class Exec:
         """-> list of (target, value) where value is an int, or ('not', [ints]) for otherwise."""
         vals = [(int(v), bb) for v, bb in t["targets"]]
         if isinstance(d, tuple) and d[0] == "c" and isinstance(d[1], int):
+            if self.all_cfg_arms and (t.get("span") or {}).get("mac") == "cfg":
+                return [(bb, None) for _, bb in vals] + [(t["otherwise"], None)]
             for v, bb in vals:
                 if v == d[1]:
                     return [(bb, None)]
